@@ -207,12 +207,24 @@ TanOk(e) ==
 
 \* C12
 IsIntegerValued(y, f) == ZEq(ZShl(ZFloorShr(y, f), f), y)
+\* the reference value V (a Q number) lies clearly outside the destination's range: V (1 - 2^-18) > max + 1 ulp
+ClearlyTooBig(V, e) == ZLt(ZAdd(QOfFix(ZAdd(MaxV(e.D), ZI(1)), FD(e)), ZFloorShr(V, 18)), V)
+\* "results that do not fit yield Err": an Ok whose true result is clearly out of range is a violation
+FitsOrErr(e) ==
+  ~MOk(e) \/
+  CASE e.fn = "exp" -> ~ClearlyTooBig(QExp(XQ(e)), e)
+    [] e.fn = "pow" -> ZSign(ZJ(e.x)) <= 0 \/ ZIsZero(ZJ(e.y))
+                       \/ ~ClearlyTooBig(QExp(QMul(QOfFix(ZJ(e.y), FS(e)), QLn(XQ(e)))), e)
+    [] e.fn = "powi" -> e.n <= 1 \/ e.n * ZBitLen(ZJ(e.x)) > 9000
+                        \/ ~ZLt(ZShl(ZAdd(MaxV(e.D), ZI(2)), FS(e) * e.n), ZShl(ZAbs(ZPow(ZJ(e.x), e.n)), FD(e)))
+    [] OTHER -> TRUE
 TotalOk(e) ==
   CASE e.fn \in {"sqrt", "log2", "ln", "exp", "pow", "powi"} ->
          /\ e.r[1] \in {0, 1}
          /\ (e.fn = "sqrt" /\ ZSign(ZJ(e.x)) < 0 => MErr(e))
          /\ (e.fn \in {"log2", "ln"} /\ ZSign(ZJ(e.x)) <= 0 => MErr(e))
          /\ (e.fn = "pow" /\ ZSign(ZJ(e.x)) < 0 /\ ~IsIntegerValued(ZJ(e.y), FS(e)) => MErr(e))
+         /\ FitsOrErr(e)
     [] e.fn \in {"sin", "cos"} -> AbsLe(e, 200) => MOk(e)
     [] e.fn = "tan" -> MOk(e) \/ ~AbsLe(e, 100) \/ ~TanInDomain(e, QSinCos(XQ(e)))
 
